@@ -381,7 +381,10 @@ def _drop_loop_atoms(f):
     if f[0] == "const":
         return f
     if f[0] == "not":
-        return ("not", _drop_loop_atoms(f[1]))
+        inner = _drop_loop_atoms(f[1])
+        if f[1][0] == "atom" and inner == ("const", True):
+            return ("const", True)          # a dropped literal is dropped in both polarities
+        return ("not", inner)
     return (f[0], _drop_loop_atoms(f[1]), _drop_loop_atoms(f[2]))
 
 
